@@ -115,6 +115,24 @@ _ext("C16", "header-guard rule")
 _ext("C18", "order and probe rules on root discovery")
 _ext("C20", "printer-model inclusion (RX), bounds/panic/loop rules on everything the handler reaches, similarity/aggregation rules reachable from the handler",
      "Everything the handler calls is covered by the crash/termination rules and the similarity rules of C03/C05; the dump format written by runtime.Stack is covered by the printer-model inclusion.")
+
+# round 3 / false-alarm round additions
+_ext("C02", "reference-automaton comparison of the scanner (SM-ref); who-may-be-the-writer rule on the CLI output",
+     "Where a dump ends and which lines are consumed is the reference automaton's decision; the pass-through writer is stdout or colorable's stdout wrapper, never a filtering writer.")
+_ext("C03", "abstract interpretation of the reader cursors in the octahedron domain (bounds on +-1 combinations of fields, entry values and loop variables; Fourier-Motzkin on loop-free segments; inferred type invariant; method summaries); minimum-length analysis for constant indices and bounds; look-ahead and parallel-index upper bounds",
+     "The reader's cursors satisfy 0 <= r <= w <= 16384 for every chunking, so every slice of its buffer is in bounds and the full-buffer panic is unreachable (invariant inferred, not given); constant indices and bounds have a proven minimum length; look-ahead indices are guarded; an index running over another value has equal lengths or a contract re-checked on this run.",
+     "RB trusts the io.Reader contract n <= len(p).")
+_ext("C04", "decision-tree equivalence of similar/equal with the reference keys (EQ rules)")
+_ext("C07", "reader delivery rules (every byte read reaches the scanner, also with the end-of-stream error)")
+_ext("C09", "octahedron abstract interpretation of the reader cursors (RB); single-read rule",
+     "The relational invariant of the cursors is inferred and every slice of the buffer proved in bounds for every chunking; the buffer handed to Read is never empty.")
+_ext("C10", "option-gate rules (post-processing runs whatever the error); constant-index and look-ahead bounds")
+_ext("C11", "octahedron invariant: Read never receives an empty buffer")
+_ext("C12", "no field other than Values/Elided carried into merged arguments")
+_ext("C16", "creator-element agreement between console and HTML; merge rules for what a bucket block shows")
+_ext("C17", "may-taint analysis: no unescaped dump text in a URL returned by a template function; index/bound rules on the helpers",
+     "Every non-constant part of a link passed through a net/url escaper (this rule found and D16 was fixed).")
+_ext("C19", "writer/reader agreement fieldToType vs augmentCall per syntax kind; cache-only-after-successful-parse rule")
 for k in list(CLAIMED): NA.pop(k, None)
 try:
     exec(open(os.path.join(V, "tools", "manifest_table.py")).read())
